@@ -302,6 +302,17 @@ class Ctx:
     def thorough(self):
         return self.tier == "thorough"
 
+    def known_finding(self, fid, what, replay):
+        """A violation instance that matches a listed known finding is reported as KNOWN-FINDING (once per finding); anything else is a violation."""
+        for f in known_findings().get("findings", []):
+            if f.get("id") == fid and f.get("property") == self.prop:
+                line = "%s %s" % (fid, f.get("what", what))
+                if line not in self.known:
+                    self.known.append(line)
+                self.count("known-finding:" + fid)
+                return
+        self.violation(what, replay)
+
     def count(self, key, n=1):
         h = self.cov["histogram"]
         h[key] = h.get(key, 0) + n
